@@ -65,6 +65,7 @@ type loader struct {
 	files    map[string][]*ast.File
 	depErrs  int
 	modErrs  []string
+	guarded  map[string]bool // named struct types of the module with a sync.Once/Mutex/RWMutex field
 }
 
 func escapeMod(p string) string {
@@ -289,6 +290,33 @@ type scanner struct {
 	fwrites []typeWrite // all field writes (filtered later by addr-taken types)
 	pcalls  []ptrCall
 	refs    []funcRef
+	ocalls  []otherCall
+	cinits  []callInit
+	guses   []guardedUse
+	used    map[*types.Var]bool
+}
+
+// otherCall: a method selected on an expression rooted in a package-level variable where the method
+// does NOT have a pointer receiver: interface method (dynamic: may mutate whatever the interface
+// holds) or value-receiver method (may mutate through maps/slices/pointers inside the value)
+type otherCall struct {
+	pkg, v, method, kind string // kind = iface | value
+	once                 bool
+	fn, loc              string
+}
+
+// callInit: a package-level variable whose initialiser is a function call (not a literal/constant)
+type callInit struct {
+	pkg, v, typ, init string
+	obj               *types.Var
+	loc               string
+}
+
+// guardedUse: access (read or write, outside a Once literal, outside init) to a field of a struct type
+// that owns a sync.Once / sync.Mutex / sync.RWMutex field
+type guardedUse struct {
+	typ, field, pkg, fn string
+	loc                 string
 }
 
 // ptrCall: g.M(…) with a pointer-receiver method M on an expression rooted in the global g
@@ -522,9 +550,14 @@ func (s *scanner) walk(c fctx, n ast.Node, assignedRoots map[*ast.CallExpr]*type
 	ast.Inspect(n, func(n ast.Node) bool {
 		switch x := n.(type) {
 		case *ast.Ident:
+			if v, ok := s.info.Uses[x].(*types.Var); ok && !c.exempt && v.Pkg() != nil && !v.IsField() && v.Parent() == v.Pkg().Scope() {
+				s.used[v] = true
+			}
 			if f, ok := s.info.Uses[x].(*types.Func); ok && f.Pkg() != nil && s.l.isModPath(f.Pkg().Path()) {
 				s.refs = append(s.refs, funcRef{callee: s.relpkg(f.Pkg()) + "." + funcName(f), pkg: s.rel, fn: c.name, initCtx: c.exempt, loc: s.loc(x)})
 			}
+		case *ast.SelectorExpr:
+			s.selector(c, x)
 		case *ast.FuncLit:
 			s.walk(fctx{name: c.name + ".func", exempt: false, once: c.once}, x.Body, assignedRoots)
 			return false
@@ -585,31 +618,57 @@ func (s *scanner) walk(c fctx, n ast.Node, assignedRoots map[*ast.CallExpr]*type
 					s.add(c, v, "append", x)
 				}
 			}
-			if sel, ok := x.Fun.(*ast.SelectorExpr); ok {
-				if se := s.info.Selections[sel]; se != nil && se.Kind() == types.MethodVal {
-					if fn, ok := se.Obj().(*types.Func); ok {
-						sig := fn.Type().(*types.Signature)
-						if sig.Recv() != nil {
-							if _, isPtr := sig.Recv().Type().(*types.Pointer); isPtr {
-								if v, _, _ := s.root(sel.X); v != nil && !c.exempt {
-									vp, vn := s.varName(v)
-									name := vn
-									if vp != s.rel {
-										name = vp + "." + vn
-									}
-									nt := namedOf(sig.Recv().Type())
-									mod := nt != nil && nt.Obj().Pkg() != nil && s.l.isModPath(nt.Obj().Pkg().Path())
-									s.pcalls = append(s.pcalls, ptrCall{pkg: s.rel, v: name, method: typeString(sig.Recv().Type()) + "." + fn.Name(),
-										modType: mod, fn: c.name, once: c.once, loc: s.loc(x)})
-								}
-							}
-						}
-					}
-				}
-			}
 		}
 		return true
 	})
+}
+
+// selector: method selections (called or taken as a method value) on expressions rooted in a
+// package-level variable, and accesses to fields of lock-owning struct types
+func (s *scanner) selector(c fctx, sel *ast.SelectorExpr) {
+	se := s.info.Selections[sel]
+	if se == nil || c.exempt {
+		return
+	}
+	switch se.Kind() {
+	case types.FieldVal:
+		if nt := namedOf(se.Recv()); nt != nil && s.l.guarded[typeString(nt)] && !c.once {
+			s.guses = append(s.guses, guardedUse{typ: typeString(nt), field: sel.Sel.Name, pkg: s.rel, fn: c.name, loc: s.loc(sel)})
+		}
+	case types.MethodVal:
+		fn, ok := se.Obj().(*types.Func)
+		if !ok {
+			return
+		}
+		v, _, _ := s.root(sel.X)
+		if v == nil {
+			return
+		}
+		vp, vn := s.varName(v)
+		name := vn
+		if vp != s.rel {
+			name = vp + "." + vn
+		}
+		sig := fn.Type().(*types.Signature)
+		if sig.Recv() == nil {
+			return
+		}
+		rt := sig.Recv().Type()
+		if _, isPtr := rt.(*types.Pointer); isPtr {
+			nt := namedOf(rt)
+			mod := nt != nil && nt.Obj().Pkg() != nil && s.l.isModPath(nt.Obj().Pkg().Path())
+			s.pcalls = append(s.pcalls, ptrCall{pkg: s.rel, v: name, method: typeString(rt) + "." + fn.Name(),
+				modType: mod, fn: c.name, once: c.once, loc: s.loc(sel)})
+			return
+		}
+		kind := "value"
+		recv := typeString(rt)
+		if types.IsInterface(se.Recv()) || types.IsInterface(rt) {
+			kind = "iface"
+			recv = typeString(se.Recv())
+		}
+		s.ocalls = append(s.ocalls, otherCall{pkg: s.rel, v: name, method: recv + "." + fn.Name(), kind: kind, once: c.once, fn: c.name, loc: s.loc(sel)})
+	}
 }
 
 func (s *scanner) scanFile(f *ast.File) {
@@ -651,9 +710,50 @@ func (s *scanner) scanFile(f *ast.File) {
 				for _, val := range vs.Values {
 					s.walk(fctx{name: "var " + nm, exempt: true}, val, map[*ast.CallExpr]*types.Var{})
 				}
+				for i, id := range vs.Names {
+					if id.Name == "_" || len(vs.Values) == 0 {
+						continue
+					}
+					val := vs.Values[0]
+					if len(vs.Values) == len(vs.Names) {
+						val = vs.Values[i]
+					}
+					call, ok := ast.Unparen(val).(*ast.CallExpr)
+					if !ok {
+						continue
+					}
+					if tv, ok := s.info.Types[call.Fun]; ok && tv.IsType() {
+						continue // conversion T(x)
+					}
+					obj, _ := s.info.Defs[id].(*types.Var)
+					if obj == nil {
+						continue
+					}
+					s.cinits = append(s.cinits, callInit{pkg: s.rel, v: id.Name, typ: typeString(obj.Type()), init: exprString(call.Fun), obj: obj, loc: s.loc(id)})
+				}
 			}
 		}
 	}
+}
+
+func exprString(e ast.Expr) string {
+	switch x := e.(type) {
+	case *ast.Ident:
+		return x.Name
+	case *ast.SelectorExpr:
+		return exprString(x.X) + "." + x.Sel.Name
+	case *ast.ParenExpr:
+		return exprString(x.X)
+	case *ast.IndexExpr:
+		return exprString(x.X) + "[…]"
+	case *ast.IndexListExpr:
+		return exprString(x.X) + "[…]"
+	case *ast.CallExpr:
+		return exprString(x.Fun) + "(…)"
+	case *ast.FuncLit:
+		return "func"
+	}
+	return "?"
 }
 
 func q(s string) string {
@@ -749,6 +849,11 @@ func main() {
 	imports := map[string][]string{} // rel -> rel of imported module packages
 	npk, nfiles, nfuncs := 0, 0, 0
 	var rels []string
+	type lp struct {
+		dir, rel string
+		p        *types.Package
+	}
+	var loaded []lp
 	for _, dir := range dirs {
 		rel, _ := filepath.Rel(repo, dir)
 		rel = filepath.ToSlash(rel)
@@ -763,9 +868,48 @@ func main() {
 		if err != nil || p == nil {
 			fatal("package %s: %v", path, err)
 		}
+		loaded = append(loaded, lp{dir, rel, p})
+	}
+	// lock-owning struct types
+	l.guarded = map[string]bool{}
+	isSync := func(t types.Type) bool {
+		nt, ok := types.Unalias(t).(*types.Named)
+		if !ok || nt.Obj().Pkg() == nil || nt.Obj().Pkg().Path() != "sync" {
+			return false
+		}
+		switch nt.Obj().Name() {
+		case "Once", "Mutex", "RWMutex":
+			return true
+		}
+		return false
+	}
+	for _, x := range loaded {
+		sc := x.p.Scope()
+		for _, n := range sc.Names() {
+			tn, ok := sc.Lookup(n).(*types.TypeName)
+			if !ok {
+				continue
+			}
+			st, ok := tn.Type().Underlying().(*types.Struct)
+			if !ok {
+				continue
+			}
+			for i := 0; i < st.NumFields(); i++ {
+				if isSync(st.Field(i).Type()) {
+					l.guarded[typeString(tn.Type())] = true
+				}
+			}
+		}
+	}
+	var ocalls []otherCall
+	var cinits []callInit
+	var guses []guardedUse
+	used := map[*types.Var]bool{}
+	for _, x := range loaded {
+		dir, rel, p := x.dir, x.rel, x.p
 		npk++
 		rels = append(rels, rel)
-		s := &scanner{l: l, pkg: p, info: l.infos[dir], rel: rel}
+		s := &scanner{l: l, pkg: p, info: l.infos[dir], rel: rel, used: used}
 		for _, imp := range p.Imports() {
 			if l.isModPath(imp.Path()) {
 				imports[rel] = append(imports[rel], s.relpkg(imp))
@@ -785,6 +929,9 @@ func main() {
 		fwrites = append(fwrites, s.fwrites...)
 		pcalls = append(pcalls, s.pcalls...)
 		refs = append(refs, s.refs...)
+		ocalls = append(ocalls, s.ocalls...)
+		cinits = append(cinits, s.cinits...)
+		guses = append(guses, s.guses...)
 	}
 	if len(l.modErrs) > 0 {
 		for i, e := range l.modErrs {
@@ -1056,6 +1203,93 @@ func main() {
 		fmt.Fprintf(w, "  ⟨%s, [%s]⟩%s  -- %d references from init context\n", q(n), strings.Join(qs, ", "), sep(i, len(wnames)), sums[n].initRefs)
 	}
 	fmt.Fprintf(w, "]\n\n")
+	// ---- interface / value-receiver method selections on globals
+	{
+		type k struct {
+			pkg, v, method, kind string
+			once                 bool
+		}
+		m := map[k][]string{}
+		for _, c := range ocalls {
+			if linked[c.pkg] {
+				kk := k{c.pkg, c.v, c.method, c.kind, c.once}
+				m[kk] = append(m[kk], c.fn+"@"+c.loc)
+			}
+		}
+		var ks []k
+		for kk := range m {
+			ks = append(ks, kk)
+		}
+		sort.Slice(ks, func(i, j int) bool {
+			return fmt.Sprint(ks[i].pkg, "\x00", ks[i].v, "\x00", ks[i].method, "\x00", ks[i].kind, "\x00", ks[i].once) <
+				fmt.Sprint(ks[j].pkg, "\x00", ks[j].v, "\x00", ks[j].method, "\x00", ks[j].kind, "\x00", ks[j].once)
+		})
+		fmt.Fprintf(w, "/-- a method selected (called or taken as a value) on an expression rooted in a package-level variable where\n    the method has NO pointer receiver: `iface` = interface method (dynamic dispatch: may mutate what the interface\n    holds), `value` = value-receiver method (may mutate through maps/slices/pointers inside the value) -/\n")
+		fmt.Fprintf(w, "structure OtherCall where\n  pkg : String\n  var : String\n  method : String\n  kind : String\n  once : Bool\nderiving DecidableEq, Repr\n\n")
+		fmt.Fprintf(w, "def otherCalls : List OtherCall := [\n")
+		for i, kk := range ks {
+			fmt.Fprintf(w, "  ⟨%s, %s, %s, %s, %v⟩%s  -- %s\n", q(kk.pkg), q(kk.v), q(kk.method), q(kk.kind), kk.once, sep(i, len(ks)), trunc(m[kk]))
+		}
+		fmt.Fprintf(w, "]\n\n")
+	}
+	// ---- call-initialised package-level variables used in function bodies
+	{
+		sort.Slice(cinits, func(i, j int) bool {
+			return cinits[i].pkg+"\x00"+cinits[i].v < cinits[j].pkg+"\x00"+cinits[j].v
+		})
+		var out []callInit
+		for _, c := range cinits {
+			if linked[c.pkg] && used[c.obj] {
+				out = append(out, c)
+			}
+		}
+		fmt.Fprintf(w, "/-- package-level variables of the linked packages whose initialiser is a function call (not a literal or a\n    constant) and that are used inside a function body other than init: possibly stateful objects -/\n")
+		fmt.Fprintf(w, "structure CallInit where\n  pkg : String\n  var : String\n  typ : String\n  init : String\nderiving DecidableEq, Repr\n\n")
+		fmt.Fprintf(w, "def callInitVars : List CallInit := [\n")
+		for i, c := range out {
+			fmt.Fprintf(w, "  ⟨%s, %s, %s, %s⟩%s  -- %s\n", q(c.pkg), q(c.v), q(c.typ), q(c.init), sep(i, len(out)), c.loc)
+		}
+		fmt.Fprintf(w, "]\n\n")
+	}
+	// ---- accesses to fields of lock-owning types outside Once literals
+	{
+		type k struct{ typ, field, pkg, fn string }
+		m := map[k][]string{}
+		for _, g := range guses {
+			if linked[g.pkg] {
+				kk := k{g.typ, g.field, g.pkg, g.fn}
+				m[kk] = append(m[kk], g.loc)
+			}
+		}
+		var ks []k
+		for kk := range m {
+			ks = append(ks, kk)
+		}
+		sort.Slice(ks, func(i, j int) bool {
+			return fmt.Sprint(ks[i].typ, "\x00", ks[i].field, "\x00", ks[i].pkg, "\x00", ks[i].fn) < fmt.Sprint(ks[j].typ, "\x00", ks[j].field, "\x00", ks[j].pkg, "\x00", ks[j].fn)
+		})
+		var gts []string
+		for t := range l.guarded {
+			gts = append(gts, t)
+		}
+		sort.Strings(gts)
+		fmt.Fprintf(w, "/-- struct types of the module that own a sync.Once / sync.Mutex / sync.RWMutex field -/\n")
+		fmt.Fprintf(w, "def guardedTypes : List String := [")
+		for i, t := range gts {
+			if i > 0 {
+				fmt.Fprintf(w, ", ")
+			}
+			fmt.Fprintf(w, "%s", q(t))
+		}
+		fmt.Fprintf(w, "]\n\n")
+		fmt.Fprintf(w, "/-- every access (read or write) to a field of a `guardedTypes` value outside init bodies and OUTSIDE the\n    literal passed to Once.Do — the accesses that need another justification (lock held, init time, or after Do) -/\n")
+		fmt.Fprintf(w, "structure GuardedUse where\n  typ : String\n  field : String\n  pkg : String\n  fn : String\nderiving DecidableEq, Repr\n\n")
+		fmt.Fprintf(w, "def guardedUses : List GuardedUse := [\n")
+		for i, kk := range ks {
+			fmt.Fprintf(w, "  ⟨%s, %s, %s, %s⟩%s  -- %s\n", q(kk.typ), q(kk.field), q(kk.pkg), q(kk.fn), sep(i, len(ks)), trunc(m[kk]))
+		}
+		fmt.Fprintf(w, "]\n\n")
+	}
 	fmt.Fprintf(w, "/-- module packages NOT reachable from the root package main (fq.go): tools, generators, test support -/\n")
 	fmt.Fprintf(w, "def unlinkedPackages : List String := [\n")
 	for i, u := range unlinked {
